@@ -4,7 +4,7 @@ Property theorems only (helpers are in Proofs/C10_*.lean). Bytes are `List UInt8
 is for all inputs of any size. `ValidManifest` / `parseSpec` / `resolve` are the specification
 (Model/C10.lean), written from doc/architecture/manifest-format.html.textile.liquid.
 -/
-import ArvVerif.Proofs.C10_PkgTotal
+import ArvVerif.Proofs.C10_Marker
 import ArvVerif.Proofs.C10_PyRanges
 import ArvVerif.Proofs.C10_FsText
 import ArvVerif.Proofs.C10_Pdh
@@ -275,22 +275,8 @@ theorem C10_pdh_hints_irrelevant (md5hex : Bytes → Bytes) (t1 t2 : Bytes) (h1 
 /-- what the manifest package parses out of a text, as structured streams -/
 def pkgParsed (txt : Bytes) : Manifest := (pkgStreams txt).map ofPStream
 
-/-- **C10_total, manifest package, full statement**: no input string makes `segment()` panic, and
-a manifest is never applied partially (either an error, or every path resolves over *all* parsed
-streams). -/
-def C10_pkg_total_Full : Prop :=
-  ∀ txt : Bytes, pkgSegment txt ≠ .panic ∧
-    (pkgSegment txt = .err ∨ ∃ m, pkgSegment txt = .ok m ∧
-      ∀ a b : Bytes, segLookup m (splitPath (pathOf a b)) = resolve (pkgParsed txt) (pathOf a b))
-
-/-- names of zero-length tokens and the stream name in canonical form. (Since fix b1a09e4 the parser
-itself rejects every *non-empty* token whose combined path `fixStreamName` would alter.) -/
-def CleanEmptyTokens (ps : PStream) : Prop :=
-  ps.name.getLast? ≠ some bSlash ∧
-    ∀ f ∈ ps.files, f.len = 0 → fixStreamName (pathOf ps.name f.name) = pathOf ps.name f.name
-
-/-- **C10_pkg_no_panic — hypothesis-free** (after fixes 584d30b, 4f92334, 2fef6b9): for *every* input
-string, `Manifest.segment()` (hence `Extract`) reaches neither of the two `panic`s of
+/-- **C10_pkg_no_panic — for every input string** (after fixes 584d30b, 4f92334, 2fef6b9):
+`Manifest.segment()` (hence `Extract`) reaches neither of the two `panic`s of
 `sendFileSegmentIterByName` nor an index out of range in `firstBlock`. -/
 theorem C10_pkg_no_panic (txt : Bytes) : pkgSegment txt ≠ .panic := by
   apply segmentStreams_no_panic _ []
@@ -299,46 +285,34 @@ theorem C10_pkg_no_panic (txt : Bytes) : pkgSegment txt ≠ .panic := by
   obtain ⟨line, _, rfl⟩ := List.mem_map.mp hps
   exact pstream_fit line he
 
-/-- **C10_pkg_total, never partially applied**: for *every* input string, `segment()` does not panic,
-and if zero-length tokens and the stream names are in canonical form (non-empty tokens are forced
-to be by fix b1a09e4) the manifest is never applied partially: either an error and nothing else, or
-every path resolves over all parsed streams. The residual hypothesis is the known finding F10e
-(witness below). -/
-theorem C10_pkg_total_partial (txt : Bytes) :
+/-- **C10_pkg_total — for every input string, no hypothesis** (after fixes 4f92334, b1a09e4, 2fef6b9,
+c203269): `segment()` does not panic, and a manifest is never applied partially — either some
+stream has a parse error and the result is that error and nothing else, or every stream parsed and
+the segment list of *every* combined path is its `resolve` over all parsed streams. -/
+theorem C10_pkg_total (txt : Bytes) :
     pkgSegment txt ≠ .panic ∧
-    ((∀ ps ∈ pkgStreams txt, ps.err = false → CleanEmptyTokens ps) →
-      (pkgSegment txt = .err ∧ ∃ ps ∈ pkgStreams txt, ps.err = true) ∨
+    ((pkgSegment txt = .err ∧ ∃ ps ∈ pkgStreams txt, ps.err = true) ∨
       ∃ m, pkgSegment txt = .ok m ∧ (∀ ps ∈ pkgStreams txt, ps.err = false) ∧
         ∀ a b : Bytes, segLookup m (splitPath (pathOf a b)) = resolve (pkgParsed txt) (pathOf a b)) := by
-  have hshape : ∀ ps ∈ pkgStreams txt, ps.err = false →
-      ps = toPStream (ofPStream ps) ∧ PkgFit (ofPStream ps) ∧
-      ∀ f ∈ ps.files, f.len > 0 → fixStreamName (pathOf ps.name f.name) = pathOf ps.name f.name := by
+  refine ⟨C10_pkg_no_panic txt, ?_⟩
+  have hok : ∀ ps ∈ pkgStreams txt, ps.err = false → ps = toPStream (ofPStream ps) ∧ StreamOk (ofPStream ps) := by
     intro ps hps he
     unfold pkgStreams at hps
     obtain ⟨line, _, rfl⟩ := List.mem_map.mp hps
-    obtain ⟨e1, e2⟩ := pstream_fit line he
-    refine ⟨e1, e2, ?_⟩
-    obtain ⟨s, hs, _, _, h2⟩ := pkgParseStream_shape line he
-    rw [hs]
-    intro f hf hpos
-    exact (h2 f hf).2 hpos
-  refine ⟨C10_pkg_no_panic txt, ?_⟩
-  intro hclean
-  have hwf : ∀ ps ∈ pkgStreams txt, ps.err = false → ps = toPStream (ofPStream ps) ∧ PkgWf (ofPStream ps) := by
-    intro ps hps he
-    obtain ⟨e1, e2, e3⟩ := hshape ps hps he
-    obtain ⟨c1, c2⟩ := hclean ps hps he
-    refine ⟨e1, e2.sizes, e2.total, e2.inside, c1, ?_⟩
-    intro f hf
-    by_cases hz : f.len = 0
-    · exact c2 f hf hz
-    · exact e3 f hf (by omega)
-  rcases segmentStreams_total (pkgStreams txt) [] hwf with h | ⟨m, h1, h2, h3⟩
+    exact pstream_ok line he
+  rcases segmentStreams_total' (pkgStreams txt) [] hok with h | ⟨m, h1, h2, h3⟩
   · exact Or.inl h
   · refine Or.inr ⟨m, h1, h2, ?_⟩
     intro a b
     have := h3 a b
     simpa [segLookup, pkgParsed] using this
+
+/-- corollary in the property's words: a malformed stream anywhere makes the whole call fail -/
+theorem C10_pkg_malformed_rejected (txt : Bytes) (ps : PStream) (hps : ps ∈ pkgStreams txt)
+    (herr : ps.err = true) : pkgSegment txt = .err := by
+  rcases (C10_pkg_total txt).2 with h | ⟨_, _, h2, _⟩
+  · exact h.1
+  · rw [h2 ps hps] at herr; cases herr
 
 /-! ## witnesses: non-vacuity and the known findings -/
 
@@ -360,31 +334,16 @@ example : ∀ s ∈ wF3M, FitsGo s ∧ FitsFs s := by
 example : TreeConsistent wF3M := by decide +kernel
 example : resolve wF3M [46, 47, 102] = [⟨[97, 97, 97, 97, 97, 97, 97, 97, 97, 97, 97, 97, 97, 97, 97, 97, 97, 97, 97, 97, 97, 97, 97, 97, 97, 97, 97, 97, 97, 97, 97, 97, 43, 51], 2, 1⟩, ⟨[98, 98, 98, 98, 98, 98, 98, 98, 98, 98, 98, 98, 98, 98, 98, 98, 98, 98, 98, 98, 98, 98, 98, 98, 98, 98, 98, 98, 98, 98, 98, 98, 43, 53], 0, 3⟩] := by decide +kernel
 
-/-- **finding F10e** — `C10_pkg_total_Full` is false in its second half: a *zero-length* token is
-exempt from the canonical-path test (the collection filesystem writes `.` directory markers), and
-one whose name cleans to a sibling's path picks up the sibling's data: in `. a…a+3 0:3:a 0:0:./a`
-the empty file `././a` comes out with `a`'s three bytes. -/
+/-- the witness of the repaired finding F10e (zero-length token with a non-canonical name picked up
+its sibling's data; fix c203269) is now rejected, while the collection filesystem's empty-directory
+marker is still accepted -/
 def wF10e : Bytes := [46, 32, 97, 97, 97, 97, 97, 97, 97, 97, 97, 97, 97, 97, 97, 97, 97, 97, 97, 97, 97, 97, 97, 97, 97, 97, 97, 97, 97, 97, 97, 97, 97, 97, 43, 51, 32, 48, 58, 51, 58, 97, 32, 48, 58, 48, 58, 46, 47, 97, 10]
-
-def wF10eMap : SegMap :=
-  [(([46], [97]), [⟨[97, 97, 97, 97, 97, 97, 97, 97, 97, 97, 97, 97, 97, 97, 97, 97, 97, 97, 97, 97, 97, 97, 97, 97, 97, 97, 97, 97, 97, 97, 97, 97, 43, 51], 0, 3⟩]), (([46, 47, 46], [97]), [⟨[97, 97, 97, 97, 97, 97, 97, 97, 97, 97, 97, 97, 97, 97, 97, 97, 97, 97, 97, 97, 97, 97, 97, 97, 97, 97, 97, 97, 97, 97, 97, 97, 43, 51], 0, 3⟩])]
-
+def wMarker : Bytes := [46, 32, 97, 97, 97, 97, 97, 97, 97, 97, 97, 97, 97, 97, 97, 97, 97, 97, 97, 97, 97, 97, 97, 97, 97, 97, 97, 97, 97, 97, 97, 97, 97, 97, 43, 51, 32, 48, 58, 51, 58, 97, 10, 46, 47, 100, 32, 100, 52, 49, 100, 56, 99, 100, 57, 56, 102, 48, 48, 98, 50, 48, 52, 101, 57, 56, 48, 48, 57, 57, 56, 101, 99, 102, 56, 52, 50, 55, 101, 43, 48, 32, 48, 58, 48, 58, 92, 48, 53, 54, 10]
 set_option maxRecDepth 100000 in
-theorem wF10e_misapplied :
-    pkgSegment wF10e = .ok wF10eMap ∧
-    segLookup wF10eMap (splitPath (pathOf [46] [46, 47, 97])) = [⟨[97, 97, 97, 97, 97, 97, 97, 97, 97, 97, 97, 97, 97, 97, 97, 97, 97, 97, 97, 97, 97, 97, 97, 97, 97, 97, 97, 97, 97, 97, 97, 97, 43, 51], 0, 3⟩] ∧
-    resolve (pkgParsed wF10e) (pathOf [46] [46, 47, 97]) = [] := by
-  refine ⟨by decide +kernel, by decide +kernel, by decide +kernel⟩
-
-theorem C10_pkg_total_full_fails : ¬ C10_pkg_total_Full := by
-  intro h
-  obtain ⟨hm, hl, hr⟩ := wF10e_misapplied
-  rcases (h wF10e).2 with he | ⟨m', hm', h2⟩
-  · rw [hm] at he; cases he
-  · rw [hm] at hm'; cases hm'
-    have := h2 [46] [46, 47, 97]
-    rw [hl, hr] at this
-    cases this
+theorem wF10e_rejected : pkgSegment wF10e = .err := by decide +kernel
+set_option maxRecDepth 100000 in
+example : pkgSegment wMarker = .ok [(([46], [97]), [⟨[97, 97, 97, 97, 97, 97, 97, 97, 97, 97, 97, 97, 97, 97, 97, 97, 97, 97, 97, 97, 97, 97, 97, 97, 97, 97, 97, 97, 97, 97, 97, 97, 43, 51], 0, 3⟩]), (([46, 47, 100], [46]), [])] := by
+  decide +kernel
 
 /-- the witness of the repaired finding F10d (stream length wraps around 2^64; fix 2fef6b9) is now
 rejected with an error -/
